@@ -188,7 +188,7 @@ func TestC05(t *testing.T) {
 			if !progressed {
 				// a pause that was requested may only take effect a little later (the weak quiescent point can
 				// fall into a lull of the traversal): stop only after a window in which nothing happened at all
-				if ok, _ := w.Q.Sustained(time.Second); ok {
+				if ok, _ := w.Q.Sustained(400 * time.Millisecond); ok {
 					settled++
 					if settled >= 1 {
 						st := S.Impl.PeerState(R.ID).IncomingState.RequestStates
